@@ -64,9 +64,7 @@ def run_family(prop, tier, family, keep_quick, keep_thorough, rule, cfgs_quick=(
             raise vlib.Infra("%s/%s: the as-shipped variant was not rejected by the model (invariants vacuous?)" % (m, c))
     # unbounded (TLAPS): the key form is preserved by delegation and resampling for any number of slots, every key of that form decrypts,
     # every signature made with one verifies -- the algebra behind WkdIbe.tla's (rho, pattern) representation of a key
-    import time as _t
-    t0 = _t.time(); nob, _ = vlib.tlapm("WkdTheorem")
-    run.mc_runs.append({"module": "WkdTheorem", "role": "TLAPS proof (tlapm, Z3): QualifyKeepsForm, DecryptRecovers, SignatureVerifies", "obligations_proved": nob, "wall_s": round(_t.time() - t0, 1)})
+    vlib.tlapm_note(run, "WkdTheorem", "TLAPS proof (tlapm, Z3): QualifyKeepsForm, DecryptRecovers, SignatureVerifies")
     keep = keep_quick if tier == "quick" else keep_thorough
     cases = run.generate("Gen_WkdIbe", family, env={"FAMILY": family, "KEEP": keep}, timeout=1500)
     traces = []
